@@ -63,7 +63,7 @@ func (t *Segment) Value(buffer []byte) []byte {
 		result = append(result, bytes.Repeat(space, t.Padding)...)
 		result = append(result, buffer[t.Start:t.Stop]...)
 	}
-	if t.ForceNewline && len(result) > 0 && result[len(result)-1] != '\n' {
+	if t.ForceNewline && (len(result) == 0 || result[len(result)-1] != '\n') {
 		result = append(result[:len(result):len(result)], '\n')
 	}
 	return result
